@@ -328,7 +328,7 @@ def kid (e : Expr) (s : Slot) (i : Nat) : Option Expr :=
     | _ => none
   -- ranges, slices and `|>` (added to S after this model was written) are leaves here: their visits are the spelled-out rows of
   -- `layout` (`EXPR_RANGE*`, `EXPR_SLICE`, `EXPR_PIPEL`), compared with the regenerated table but not part of the path model
-  | .lit _ | .var _ | .lam _ | .enumVal _ _ | .range _ | .slice _ _ | .pipe _ _ _ => none
+  | .lit _ | .var _ | .dimVar _ | .lam _ | .enumVal _ _ | .range _ | .slice _ _ | .pipe _ _ _ => none
 
 /-- the names a record guard binds for this child (`match` arm by record guard, then-branch of a record `if let`) -/
 def guardBinds (e : Expr) (s : Slot) (i : Nat) : List Name :=
